@@ -295,13 +295,13 @@ impl Ctx {
 								Ok(())
 							} else {
 								g.3 = true;
-								Err(TestCaseError::fail(unknown[0].signature.clone()))
+								Err(TestCaseError::fail(format!("{} — {}", unknown[0].signature, unknown[0].detail.chars().take(600).collect::<String>())))
 							}
 						});
 						let (stats, distinct, samples, _) = stats.into_inner().unwrap();
 						let failure = match res {
 							Ok(()) => None,
-							Err(TestError::Fail(_, case)) => {
+							Err(TestError::Fail(reason, case)) => {
 								// re-run the minimal case to collect its failures
 								let mut obs = Obs::new();
 								let r = std::panic::catch_unwind(std::panic::AssertUnwindSafe(|| sc.run(&case, &mut obs)));
@@ -314,10 +314,14 @@ impl Ctx {
 									.filter(|f| !tolerated_signature(known, property, &f.signature))
 									.collect();
 								let fails = if fails.is_empty() {
-									vec![Failure {
-										signature: format!("{name}/unstable"),
-										detail: "failure did not reproduce on re-run of the shrunk case".into(),
-									}]
+									// (sub-checks that run on real threads: the failure depends on the OS schedule; it is reported under
+									// the signature it was seen with)
+									let r = reason.to_string();
+									let (sig, det) = match r.split_once(" — ") {
+										Some((a, b)) => (a.to_string(), b.to_string()),
+										None => (format!("{name}/unstable"), r.clone()),
+									};
+									vec![Failure { signature: sig, detail: format!("(seen once; the shrunk case did not fail again when it was re-run) {det}") }]
 								} else {
 									fails
 								};
